@@ -3,6 +3,7 @@
 mod graph;
 mod keys;
 mod machines;
+mod replay;
 mod tables;
 mod trace;
 
@@ -94,6 +95,33 @@ fn main() {
             } else {
                 usage();
             }
+        }
+        "replay-table" => {
+            // pkv replay-table <set1|set2|frame|event|words> <table.json> <depth-or-stride>
+            if args.len() < 5 {
+                usage();
+            }
+            let n: usize = args[4].parse().expect("depth/stride");
+            let rep = replay::Report::new();
+            match args[2].as_str() {
+                "set1" | "set2" => replay::scan(&replay::load(&args[3]), &args[2], n, &rep),
+                "frame" => replay::frame(&replay::load(&args[3]), n, &rep),
+                "event" => replay::event(&replay::load(&args[3]), n, &rep),
+                "words" => {
+                    let mut cnt = 0u64;
+                    for b in replay::words(&args[3], &mut cnt) {
+                        println!("@@M {}", b);
+                    }
+                    rep.steps.fetch_add(cnt, std::sync::atomic::Ordering::Relaxed);
+                    rep.seqs.fetch_add(cnt, std::sync::atomic::Ordering::Relaxed);
+                }
+                _ => usage(),
+            }
+            println!(
+                "@@S {}",
+                serde_json::json!({"table": args[2], "sequences": rep.seqs.load(std::sync::atomic::Ordering::Relaxed),
+                                   "calls": rep.steps.load(std::sync::atomic::Ordering::Relaxed), "mismatching_transitions": rep.count()})
+            );
         }
         "cells" => {
             // re-evaluate layout cells: JSON array of [object, key, modifiers, mode]
